@@ -1,8 +1,9 @@
 import CoolerModel.Drv.JsonUtil
 import CoolerModel.Model.Sanitize
+import CoolerModel.Model.Hiclib
 open Lean
 namespace Cooler.Drv.C05
-open Cooler Cooler.Drv Cooler.Sanitize
+open Cooler Cooler.Drv Cooler.Sanitize Cooler.Hiclib
 
 def trilOf (j : Json) : R Tril := do
   if j.isNull then return .keep
@@ -99,6 +100,20 @@ def answer (bins : BinTable) (o : Opts) (chunks : List (List Rec)) : Json :=
     ("n_known", jNat (anchors o all).length),
     ("n_retained", jNat (retained o all).length)]
 
+
+/-- hiclib read pair `[c1, p1, c2, p2]` (ids as stored: any integer) -/
+def hrecOf (j : Json) : R HRec := do
+  match ← arrOf j with
+  | [c1, p1, c2, p2] => return ⟨← intOf c1, ← intOf p1, ← intOf c2, ← intOf p2⟩
+  | _ => throw "hiclib record: expected [c1,p1,c2,p2]"
+
+def boundOf (j : Json) : R (Nat × Nat) := do
+  match ← arrOf j with
+  | [a, b] => return (← natOf a, ← natOf b)
+  | _ => throw "bound: expected [lo,hi]"
+
+def jChunk (x : (Nat × Nat) × List Cell) : Json := Json.arr #[jNat x.1.1, jNat x.1.2, jCells x.2]
+
 def handle : Handler := fun op a =>
   match op with
   | "C05.sanitize" => some do
@@ -147,6 +162,54 @@ def handle : Handler := fun op a =>
         ("l1", jCells (tabixAggregate bins oneBased file)),
         ("l0", jExcept jCells (specCounts bins o recs)),
         ("upper", Json.bool (!(anchors o recs).any Anchor.lower))]
+  | "C05.hiclib" => some do
+      -- HDF5Aggregator: the model of the code as it is for every chunksize asked, and the specification
+      let bins ← getBins a "bins"
+      let n ← getNat a "nchroms"
+      let recs ← fld a "recs" >>= listOf hrecOf
+      let css ← getNats a "chunksizes"
+      -- integer row labels of the bin-table frame as handed to cooler (absent / null: pandas' default 0 … n-1)
+      let labels : List Int := match fld a "labels" >>= listOf intOf with
+        | .ok l => l
+        | .error _ => rangeLabels bins
+      let good := recs.all fun r => decide (Good bins n r)
+      return Json.mkObj [
+        ("valid", Json.bool (validSegmentationB bins)),
+        ("binsize", jOpt jNat (getBinsize bins)),
+        ("sorted", Json.bool (decide (SortedH recs))),
+        ("blocksorted", Json.bool (decide (BlockSorted (recs.map HRec.c1)))),
+        ("good", Json.bool good),
+        ("upper", Json.bool (recs.all fun r => !(anchorH r).lower)),
+        ("outside", Json.bool (outside bins n recs)),
+        ("unlisted", Json.bool (unlisted n recs)),
+        ("default_labels", Json.bool (labels == rangeLabels bins)),
+        ("l0", jExcept jCells (hiclibSpec bins n recs)),
+        ("runs", jList (fun cs =>
+            let l1 := hiclibChunksL bins labels n cs recs
+            let flat : Except Err (List Cell) := match l1 with
+              | .error e => .error e
+              | .ok l => .ok (l.map (·.2)).flatten
+            Json.mkObj [("chunksize", jNat cs),
+              ("l1", jExcept (jList jChunk) l1),
+              ("l1_flat", jExcept jCells flat),
+              ("l1_bc", jExcept jCells (boundsChecked bins.length flat))]) css)]
+  | "C05.hiclib_chunks" => some do
+      -- contract of the chunk boundaries, evaluated on the boundaries the REAL loop used
+      let bins ← getBins a "bins"
+      let n ← getNat a "nchroms"
+      let recs ← fld a "recs" >>= listOf hrecOf
+      let runs ← fld a "runs" >>= listOf (fun j => do
+        return (← getNat j "chunksize", ← fld j "bounds" >>= listOf boundOf))
+      return Json.mkObj [
+        ("valid", Json.bool (validSegmentationB bins)),
+        ("wellformed", Json.bool (decide (SortedH recs) && (recs.all fun r => decide (Good bins n r)) &&
+            (recs.all fun r => !(anchorH r).lower))),
+        ("runs", jList (fun (x : Nat × List (Nat × Nat)) => Json.mkObj [
+            ("chunksize", jNat x.1),
+            ("chain", Json.bool (chainOK 0 x.2 recs.length)),
+            ("sep", Json.bool (sepRows bins n (x.2.map (sliceOf recs)))),
+            ("ok", Json.bool (chunksOK bins n recs x.2)),
+            ("model", jExcept (jList fun b => Json.arr #[jNat b.1, jNat b.2]) (hiclibBounds bins n x.1 recs))]) runs)]
   | "C05.constants" => some do
       -- the presets the model's defaults stand for
       return Json.mkObj [
